@@ -160,6 +160,38 @@ def case(spec, log):
                     else:
                         continue
                     break
+            elif name == 'race':
+                # workers are created by one thread while other threads sweep the registry
+                old = sys.getswitchinterval()
+                sys.setswitchinterval(1e-6)
+                stop = threading.Event()
+                made = []
+
+                def sweeper():
+                    while not stop.is_set():
+                        list(Worker.active_children())
+
+                def creator():
+                    for _ in range(op[1]):
+                        made.append(get_class('ThreadWorker')[0](vtargets.py_loop, args=[None, None]))
+
+                sw = [threading.Thread(target=sweeper) for _ in range(2)]
+                for t in sw:
+                    t.start()
+                ct = threading.Thread(target=creator)
+                ct.start()
+                ct.join()
+                stop.set()
+                for t in sw:
+                    t.join()
+                sys.setswitchinterval(old)
+                for w in made:
+                    workers[created] = w
+                    created += 1
+                    stats['created'] += 1
+                del made[:]
+                w = None     # the harness must not keep workers alive through its own temporaries
+                quiescent_check('race step%d' % step)
             elif name == 'autoclose':
                 with autoclose_active_children():
                     pass
@@ -212,8 +244,10 @@ def gen_history(r, size, heavy):
         elif x < 0.90:
             ops.append(['finish'])
             ops.append(['check'])
-        elif x < 0.95:
+        elif x < 0.93:
             ops.append(['concurrent', r.randint(1, 4)])
+        elif x < 0.945:
+            ops.append(['race', r.randint(3, 8)])
         else:
             ops.append(['finish'])
             ops.append(['drop'])
@@ -236,6 +270,7 @@ def run(tier):
     for i in range(24 if thorough else 6):
         jobs.append(dict(ops=gen_history(r, r.choice([15, 30]), heavy=True), heavy=True))
     # the long-lived-program scenario: many workers come and go
+    jobs.append(dict(ops=[['create', 'RemoteWorker', 'loop'], ['race', 20], ['check'], ['race', 20], ['check'], ['autoclose'], ['check']], heavy=True))
     jobs.append(dict(ops=[['create', 'ThreadWorker', 'quick'] for _ in range(300)] + [['finish'], ['check'], ['drop'], ['check']], heavy=False))
     jobs.append(dict(ops=sum([[['create', 'PersistentThreadWorker', 'quick'], ['finish'], ['restart', 0], ['check']] for _ in range(20)], []) + [['drop'], ['check']], heavy=False))
     wd = workdir('c19')
